@@ -296,6 +296,20 @@ class Campaign:
             # the loop of _apply_modifications itself (IR.applyMods), request by request: the block the
             # previous call returned, the running total_insert_len, the offset the request was registered with
             allrecs = o["rec"].records
+            # the premises of all_blocks_are_listing_edits (ReqOk, pairwise different intervals) on what the loop saw
+            seen_iv = {}
+            for mine in self.seq:
+                r0 = allrecs[mine[0]["_rec"]] if mine[0].get("_rec") is not None and mine[0]["_rec"] < len(allrecs) else None
+                if r0 is None or "after" not in r0:
+                    continue
+                b0 = next((b for b in r0["before"]["blocks"] if b["id"] == mine[0]["block"]), None)
+                iv0 = next((i for i in r0["before"]["intervals"] if b0 and i["id"] == b0["bi"]), None)
+                ctx.count("premise:request-list")
+                if b0 is None or iv0 is None or b0["size"] == 0 and any(e["del"] or e["ins"] for e in mine) and False:
+                    ctx.mismatch("premise of all_blocks_are_listing_edits: the block of a request list is not in a byte interval", case)
+                elif b0["off"] + b0["size"] > len(iv0["bytes"]) or seen_iv.setdefault(iv0["id"], b0["id"]) != b0["id"]:
+                    ctx.mismatch("premise of all_blocks_are_listing_edits does not hold: block %s [%d,+%d) in interval %s (%d bytes, also "
+                                 "edited for block %s)" % (b0["id"], b0["off"], b0["size"], iv0["id"], len(iv0["bytes"]), seen_iv.get(iv0["id"])), case)
             for mine in self.seq:
                 base = next((e["_base"] for e in mine if e["_base"] is not None), None)
                 total, prev = 0, mine[0]["block"]
